@@ -17,6 +17,9 @@ type Profile struct {
 	Image, Len, Drop                                        int
 	HeapCheck, Churn, NVisit, RefCheck, Stores              int
 	CloseAll, NoGet                                         bool
+	FlushExtra, EndExtra                                    []string // templates with %F = file id
+	KeyOnlyReads                                            bool     // C19: bracket key-only ops with rmark/kreads
+	Iter, SetRoot                                           int
 	MemOnly                                                 int // percent of histories on a memory-only store
 	MaxColls                                                int
 	BigVals                                                 bool
@@ -311,6 +314,9 @@ func (g *Gen) history() []string {
 					for n := range s.names {
 						s.durable[n] = true
 					}
+					for _, t := range p.FlushExtra {
+						g.emit(strings.ReplaceAll(t, "%F", fmt.Sprint(s.fid)))
+					}
 				}
 			}
 		}},
@@ -467,6 +473,36 @@ func (g *Gen) history() []string {
 				g.emit("del %d %s -", s.sid, n)
 			}
 		}},
+		{p.Iter, func() {
+			s := g.pickStore(false)
+			dir := []string{"asc", "desc"}[r.Intn(2)]
+			var tgt []byte
+			switch r.Intn(4) {
+			case 0:
+				tgt = []byte{}
+			case 1:
+				tgt = []byte{0xff, 0xff}
+			default:
+				tgt = g.key()
+			}
+			prog := ""
+			for i, n := 0, r.Intn(9); i < n; i++ {
+				prog += string("NNNNCR"[r.Intn(6)])
+			}
+			if prog == "" {
+				prog = "R"
+			}
+			g.emit("iter %d %s %s %s %d %s", s.sid, hx([]byte(g.pickName(s, true))), dir, hx(tgt), r.Intn(2), prog)
+		}},
+		{p.SetRoot, func() {
+			s := g.pickStore(true)
+			if s == nil || s.mem {
+				return
+			}
+			n := g.pickName(s, true)
+			k := g.key()
+			g.emit("setroot %d %s %s %d %d", s.sid, hx([]byte(n)), hx(k), g.prio(n, k), r.Intn(4))
+		}},
 		{p.Dump, func() { g.emit("dump %d", g.pickStore(false).sid) }},
 		{p.HeapCheck, func() { g.emit("heapcheck") }},
 		{p.RefCheck, func() { g.emit("refcheck") }},
@@ -559,6 +595,14 @@ func (g *Gen) history() []string {
 	for _, id := range ids {
 		g.emit("dump %d", id)
 	}
+	if p.KeyOnlyReads {
+		g.lines = bracketKeyOnly(g.lines)
+	}
+	for f := 1; f < g.nextFid; f++ {
+		for _, t := range p.EndExtra {
+			g.emit(strings.ReplaceAll(t, "%F", fmt.Sprint(f)))
+		}
+	}
 	if p.CloseAll {
 		r.Shuffle(len(ids), func(i, j int) { ids[i], ids[j] = ids[j], ids[i] })
 		for _, id := range ids {
@@ -576,4 +620,52 @@ func opKind(line string) string {
 		return ""
 	}
 	return f[0]
+}
+
+// bracketKeyOnly surrounds every key-only operation on a file-backed store with `rmark F` /
+// `kreads F`, and every open with `rmark F` / `openreads F` (C19).
+func bracketKeyOnly(lines []string) []string {
+	sfile := map[string]string{}
+	var out []string
+	for _, l := range lines {
+		f := strings.Fields(l)
+		if len(f) == 0 {
+			continue
+		}
+		switch f[0] {
+		case "open":
+			sfile[f[1]] = f[2]
+			out = append(out, "rmark "+f[2], l, "openreads "+f[2])
+			continue
+		case "mem":
+			delete(sfile, f[1])
+		case "snap":
+			if fid, ok := sfile[f[1]]; ok {
+				sfile[f[2]] = fid
+			}
+		case "copy":
+			sfile[f[2]] = f[3]
+		}
+		keyOnly := false
+		switch f[0] {
+		case "exist", "len", "set", "del":
+			keyOnly = true
+		case "geti":
+			keyOnly = f[4] == "0"
+		case "min", "max":
+			keyOnly = f[3] == "0"
+		case "visit":
+			keyOnly = f[5] == "0"
+		}
+		if len(f) < 2 {
+			out = append(out, l)
+			continue
+		}
+		if fid, ok := sfile[f[1]]; keyOnly && ok {
+			out = append(out, "rmark "+fid, l, "kreads "+fid)
+		} else {
+			out = append(out, l)
+		}
+	}
+	return out
 }
